@@ -238,6 +238,9 @@ def check_C04(tier, seed):
                 continue
             models.append(Model("MC_Index.tla", {"Pattern": p, "Family": fam, "MaxDims": 3, "Emit": True},
                                 invariants=["Prop_C04", "EmitInv"], workers=2, label=f"MC_Index/{fam}/{p}"))
+    for fam, p, md in (("getpat", "P22222", 1), ("getpat", "P23232", 1), ("setpat", "P22222", 1)):
+        models.append(Model("MC_Index.tla", {"Pattern": p, "Family": fam, "MaxDims": md, "Emit": True},
+                            invariants=["Prop_C04", "EmitInv"], workers=2, label=f"MC_Index/{fam}/{p}"))
     groups = {}
     nvec = 0
     for m, res in core.run_models(models, seed=seed, parallel=8):
